@@ -53,6 +53,16 @@ func supportScripts(env *Env) {
 		calls = append(calls, call{"Sample", map[string]interface{}{"nb": f64(nb)}, on})
 	}
 	calls = append(calls, call{"ShuffleSequences", map[string]interface{}{}, []int{0, 2}})
+	// rarefaction with counts that are exhausted while drawing (singletons) and with equal counts
+	for _, cs := range [][]int{{1, 1, 1, 1}, {1, 3, 1, 3}, {2, 2, 2, 2}} {
+		counts := []interface{}{}
+		for i, c := range cs {
+			counts = append(counts, map[string]interface{}{"n": toIface([]int{'r', '0' + i}), "c": f64(c)})
+		}
+		for _, nb := range []int{2, 3} {
+			calls = append(calls, call{"Rarefy", map[string]interface{}{"counts": counts, "nb": f64(nb)}, []int{2}})
+		}
+	}
 	nscript := 0
 	for ci, c := range calls {
 		for _, in := range c.on {
@@ -61,15 +71,15 @@ func supportScripts(env *Env) {
 			}
 			for d := 0; d < draws; d++ {
 				reps := 1
-				if d < 6 {
-					reps = 2 // same seed twice: replay
+				if d < 20 {
+					reps = 3 // same seed three times: replay
 				}
 				for r := 0; r < reps; r++ {
 					a := map[string]interface{}{"seed": f64(int(env.Seed)*100003 + ci*7919 + d), "sup": r == 0}
 					for k, v := range c.a {
 						a[k] = v
 					}
-					if d < 6 {
+					if d < 20 {
 						a["mk"] = true
 					}
 					steps := []*Step{insts[in], {Op: c.op, Recv: 1, A: a}}
